@@ -108,14 +108,33 @@ def bdb_term(c):
     return "(%s, %s, [%s], %s)" % (cbytes(c["root"]), kvs(c["db"]), "; ".join(ops), kvs(c["after"] or []))
 
 
+def ops2_term(c):
+    c1, c2 = c["commit"], c["commit2"]
+    return "(%s, %s, [%s], (%s, %s, %s, %s), [%s], (%s, %s, %s, %s, %s))" % (
+        cbytes(c["root"]), kvs(c["db"]), "; ".join(op_term(o) for o in c["ops"]),
+        "[" + "; ".join(cbytes(k) for k in c1["added"]) + "]", kvs(c1["updated"]), kvs(c1["deleted"]), kvs(c1["after"]),
+        "; ".join(op_term(o) for o in c["ops2"]),
+        "[" + "; ".join(cbytes(k) for k in c2["added"]) + "]", kvs(c2["updated"]), kvs(c2["deleted"]), kvs(c2["after"]),
+        kvs(c2["reverted"]))
+
+
+def two_term(c):
+    return "(%s, %s, %s, [%s], %s, %s)" % (
+        cbytes(c["roots"][0]), cbytes(c["roots"][1]), kvs(c["db"]),
+        "; ".join("(%d, %s)" % (o.get("d", 0), op_term(o)) for o in c["ops"]),
+        kvs(c["commits"][0]["after"]), kvs(c["commits"][1]["after"]))
+
+
 def strip_obs(c):
     """the input part of a case (what a replay needs)"""
     c = json.loads(json.dumps(c))
     c.pop("close", None)
-    if c["k"] == "ops":
-        for o in c["ops"]:
+    if c["k"] in ("ops", "ops2", "two"):
+        for o in c["ops"] + c.get("ops2", []):
             o.pop("res", None)
         c.pop("commit", None)
+        c.pop("commit2", None)
+        c.pop("commits", None)
         c.pop("panic", None)
     elif c["k"] == "bdb":
         for o in c["ops"]:
@@ -141,6 +160,14 @@ def evaluate(ck, recs):
                      case=strip_obs(c), observed=c["close"], theorem_or_correspondence="pkg/db scans close their iterators")
             f["spec_violated"] = True
             ck.failures.append(f)
+    for c in recs:
+        for cm in [c.get("commit"), c.get("commit2")] + list(c.get("commits") or []):
+            if cm and cm.get("dry_ok") is False:
+                f = dict(kind="history", key="c12:commit:dry-run-differs",
+                         what="a dry-run Commit (batch never written) followed by the real Commit returned different diffs: %s" % json.dumps(strip_obs(c)),
+                         case=strip_obs(c), observed=cm, theorem_or_correspondence="Commit is a pure function of the staged state")
+                f["spec_violated"] = True
+                ck.failures.append(f)
     good = []
     for c in ops:
         if c.get("panic") or not c.get("commit") or c["commit"].get("reverted") is None:
@@ -154,6 +181,43 @@ def evaluate(ck, recs):
             good.append(c)
     ro = ck.coq_eval(IMPORTS, "ops_case", "check_ops", [ops_term(c) for c in good], shard=120, tag="ops")
     rs = ck.coq_eval(IMPORTS, "scan_case", "check_scan", [scan_term(c) for c in scans], shard=400, tag="scan")
+    # continued use after Commit, and two roots over one store
+    for kind, termf, typ, fn, what in (("ops2", ops2_term, "ops2_case", "check_ops2", "continued use of a diffdb.Database after Commit"),
+                                       ("two", two_term, "two_case", "check_two", "two diffdb roots over one store")):
+        cs = [r for r in recs if r["k"] == kind]
+        okc = []
+        for c in cs:
+            done = (c.get("commit2") and c["commit2"].get("reverted") is not None) if kind == "ops2" else (len(c.get("commits") or []) == 2)
+            if c.get("panic") or not done:
+                ck.count()
+                f = dict(kind="history", key="c12:panic:%s:%s" % (kind, c.get("panic") or "commit"),
+                         what="%s: diffdb panicked / failed (%s) on %s" % (what, c.get("panic"), json.dumps(strip_obs(c))),
+                         case=strip_obs(c), theorem_or_correspondence="Corr.C12.%s (no panic)" % fn, observed=c.get("panic"))
+                f["spec_violated"] = True
+                ck.failures.append(f)
+            else:
+                okc.append(c)
+        rk = ck.coq_eval(IMPORTS, typ, fn, [termf(c) for c in okc], shard=100, tag=kind)
+        phase1 = {}
+        if rk is not None and kind == "ops2":
+            badc = [c for c, code in zip(okc, rk) if code >= 2]
+            p1 = ck.coq_eval(IMPORTS, typ, "ops2_phase1", [termf(c) for c in badc], shard=100, tag="ops2p1") or [1] * len(badc)
+            phase1 = {id(c): v for c, v in zip(badc, p1)}
+        if rk is not None:
+            for c, code in zip(okc, rk):
+                ck.count()
+                ck.nontrivial((kind, json.dumps(strip_obs(c), sort_keys=True)))
+                if code != 0:
+                    spec_bad = code >= 2
+                    sub = ""
+                    if kind == "ops2" and spec_bad:
+                        sub = ":after-commit" if phase1.get(id(c)) == 0 else ":before-commit"
+                    f = dict(kind="history", key="c12:%s:%s%s" % (kind, "spec" if spec_bad else "model", sub),
+                             what="%s: implementation %s on %s" % (what, "violates the staged-map oracle" if spec_bad
+                                                                  else "differs from the proved model", json.dumps(strip_obs(c))),
+                             case=strip_obs(c), observed=c, theorem_or_correspondence="Corr.C12.%s vs diffdb.Database" % fn)
+                    f["spec_violated"] = spec_bad
+                    ck.failures.append(f)
     bdbs = [r for r in recs if r["k"] == "bdb"]
     for c in bdbs:
         if c.get("panic"):
@@ -245,9 +309,9 @@ def run(ck):
         return
     corpus = os.path.join(ROOT, "corpus", "C12")
     if ck.tier == "quick":
-        args = ["-ops", "1200", "-scan", "1500", "-bdb", "300", "-len", "22"]
+        args = ["-ops", "1200", "-scan", "1500", "-bdb", "300", "-two", "150", "-len", "22"]
     else:
-        args = ["-ops", "20000", "-scan", "30000", "-bdb", "5000", "-len", "40"]
+        args = ["-ops", "20000", "-scan", "30000", "-bdb", "5000", "-two", "3000", "-len", "40"]
     if os.path.isdir(corpus):
         args += ["-corpus", corpus]
     recs = ck.run_harness(binp, args)
